@@ -97,6 +97,21 @@ func Main(defs []PropDef) {
 			}()
 			d.Run(c)
 		}()
+		if prog.Inlined != nil && c.Open() {
+			// second view: the same rules on the tree with new helpers expanded in place
+			c2 := core.NewCtx(prog.Inlined, d.ID, *tier)
+			func() {
+				defer func() {
+					if r := recover(); r != nil {
+						c2.Undecidedf("panic", d.ID, 0, "checker panicked on the expanded program: %v", r)
+					}
+				}()
+				d.Run(c2)
+			}()
+			if n := c.AdoptPasses(c2); n > 0 {
+				c.Note("%d obligations discharged on the helper-expanded view of the tree", n)
+			}
+		}
 		if *tier == "thorough" && os.Getenv("RS_NO_SELFTEST") == "" {
 			sens := Sensitivity(d.ID)
 			c.Extra = map[string]interface{}{"sensitivity": sens}
